@@ -215,10 +215,14 @@ def run(fx, rep, tier):
                        "the SI exponent of the prefix it read (per spelling, = data.toml = the SI table) and every unit's scale "
                        "equals the reference table (shared with C05-R1 and C05-R2)")
     sub = type(rep)(rep.prop, rep.tier)
-    c05.r1_generated(facts, sub)
+    tabs_ = c05.r1_generated(facts, sub)
     c05.r2_tables(facts, sub)
+    # ... the gram's parse-side bias and the kilogram's display-side bias cancel (the prefix shown is the prefix stored), and a
+    # unit written twice in one expression carries the sum of its powers (shared with C05-R3 and C05-R9)
+    c05.r3_bias(facts, sub, tabs_)
+    c05.r9_update(facts, sub)
     for o in sub.obls:
-        if o["rule"] in ("C05-R1", "C05-R2"):
+        if o["rule"] in ("C05-R1", "C05-R2", "C05-R3", "C05-R9"):
             o["key"] = o["rule"] + ":" + o["key"]
             o["rule"] = "C03-R8"
             rep.obls.append(o)
